@@ -4,6 +4,7 @@ use serde_json::Value;
 
 pub mod c01;
 pub mod c03;
+pub mod c03_twohop;
 pub mod c04;
 pub mod c04_world;
 pub mod c05;
